@@ -2,6 +2,7 @@
     Statements only; proofs are in Proofs/SignersProofs.v. *)
 From Coq Require Import ZArith List Bool.
 From Canto Require Import Model.Coinswap Model.Signers Proofs.SignersProofs.
+From Canto Require Check.SignersCheck.
 Import ListNotations.
 Open Scope Z_scope.
 
@@ -69,6 +70,15 @@ Proof. exact history_only_signers_debited. Qed.
 Theorem C07_history_is_run : forall h s, final (trace h s) s = run h s.
 Proof. exact trace_run. Qed.
 
+(* the two monitors the correspondence check evaluates on the implementation's observations are the boolean
+   forms of the theorems: they hold of every transition of the model, for every tracked universe *)
+Theorem C07_monitor_sound : forall now s m accts denoms pairs,
+  params_valid (st_params (s_cs s)) = true ->
+  SignersCheck.mon_only_signers accts denoms pairs s (fst (deliver now s m)) m (signers m) = true.
+Proof. exact monitor_sound. Qed.
+Theorem C07_monitor_exact_sound : forall m, SignersCheck.mon_exact_signer m (signers m) = true.
+Proof. exact monitor_exact_sound. Qed.
+
 Print Assumptions C07_signers_exact.
 Print Assumptions C07_signers_swap_order.
 Print Assumptions C07_signers_add_liquidity.
@@ -82,3 +92,5 @@ Print Assumptions C07_malformed_payer_rejected.
 Print Assumptions C07_not_ok_no_debit.
 Print Assumptions C07_history.
 Print Assumptions C07_history_is_run.
+Print Assumptions C07_monitor_sound.
+Print Assumptions C07_monitor_exact_sound.
